@@ -289,6 +289,80 @@ theorem sign1_built_bytes (m : CoseSign1) (k : Nat) (hk : k + 2 ≤ recursionLim
   · simp only [toVec, h1]
   · simp only [fromSlice, readToValue_enc _ hn hd, h2]
 
+/-- COSE_Mac0 built in memory. -/
+theorem mac0_built_bytes (m : CoseMac0) (k : Nat) (hk : k + 2 ≤ recursionLimit)
+    (hp : ProtectedHeader.WF maxNest m.protected_) (hu : Header.WF maxNest m.unprotected)
+    (hpn : ProtectedHeader.NF m.protected_) (hun : Header.NF k m.unprotected)
+    (hpl : ∀ b, m.payload = some b → b.length < 2 ^ 64) (htg : m.tag.length < 2 ^ 64) :
+    ∃ bs m', toVec CoseMac0.toValue m = .ok bs ∧ fromSlice CoseMac0.fromValue bs = .ok m' ∧
+      ProtectedHeader.erase m'.protected_ = ProtectedHeader.erase m.protected_ ∧ Header.erase m'.unprotected = Header.erase m.unprotected ∧
+      m'.payload = m.payload ∧ m'.tag = m.tag := by
+  obtain ⟨b, y, p', u', hs, g2, g3, g4, g5, _⟩ := slots_rt _ _ hp hu
+  have h1 : m.toValue = .ok (.array [.bytes b, y, optBytesToValue m.payload, .bytes m.tag]) := by simp [CoseMac0.toValue, hs]
+  have h2 : CoseMac0.fromValue (.array [.bytes b, y, optBytesToValue m.payload, .bytes m.tag]) = .ok ⟨p', u', m.payload, m.tag⟩ :=
+    (mac0_ok_iff _ _).mpr ⟨.bytes b, y, _, rfl, g2, g3, optBytes_emit _⟩
+  obtain ⟨n1, d1, n2, d2⟩ := slots_emit_normal _ _ k hp hu hpn hun _ _ hs
+  obtain ⟨n3, d3⟩ := normal_optBytes m.payload hpl
+  have hn : Normal (.array [.bytes b, y, optBytesToValue m.payload, .bytes m.tag]) := by
+    simp only [Normal, NormalL]; exact ⟨by simp, n1, n2, n3, htg, trivial⟩
+  have hd : depthOf (.array [.bytes b, y, optBytesToValue m.payload, .bytes m.tag]) ≤ recursionLimit := by
+    simp only [depthOf, depthOfL] at d1 d3 ⊢; omega
+  refine ⟨enc (.array [.bytes b, y, optBytesToValue m.payload, .bytes m.tag]), ⟨p', u', m.payload, m.tag⟩, ?_, ?_, g4, g5, rfl, rfl⟩
+  · simp only [toVec, h1]
+  · simp only [fromSlice, readToValue_enc _ hn hd, h2]
+
+/-- COSE_Encrypt0 built in memory. -/
+theorem encrypt0_built_bytes (m : CoseEncrypt0) (k : Nat) (hk : k + 2 ≤ recursionLimit)
+    (hp : ProtectedHeader.WF maxNest m.protected_) (hu : Header.WF maxNest m.unprotected)
+    (hpn : ProtectedHeader.NF m.protected_) (hun : Header.NF k m.unprotected)
+    (hct : ∀ b, m.ciphertext = some b → b.length < 2 ^ 64) :
+    ∃ bs m', toVec CoseEncrypt0.toValue m = .ok bs ∧ fromSlice CoseEncrypt0.fromValue bs = .ok m' ∧
+      ProtectedHeader.erase m'.protected_ = ProtectedHeader.erase m.protected_ ∧ Header.erase m'.unprotected = Header.erase m.unprotected ∧
+      m'.ciphertext = m.ciphertext := by
+  obtain ⟨b, y, p', u', hs, g2, g3, g4, g5, _⟩ := slots_rt _ _ hp hu
+  have h1 : m.toValue = .ok (.array [.bytes b, y, optBytesToValue m.ciphertext]) := by simp [CoseEncrypt0.toValue, hs]
+  have h2 : CoseEncrypt0.fromValue (.array [.bytes b, y, optBytesToValue m.ciphertext]) = .ok ⟨p', u', m.ciphertext⟩ :=
+    (encrypt0_ok_iff _ _).mpr ⟨.bytes b, y, _, rfl, g2, g3, optBytes_emit _⟩
+  obtain ⟨n1, d1, n2, d2⟩ := slots_emit_normal _ _ k hp hu hpn hun _ _ hs
+  obtain ⟨n3, d3⟩ := normal_optBytes m.ciphertext hct
+  have hn : Normal (.array [.bytes b, y, optBytesToValue m.ciphertext]) := by
+    simp only [Normal, NormalL]; exact ⟨by simp, n1, n2, n3, trivial⟩
+  have hd : depthOf (.array [.bytes b, y, optBytesToValue m.ciphertext]) ≤ recursionLimit := by
+    simp only [depthOf, depthOfL] at d1 d3 ⊢; omega
+  refine ⟨enc (.array [.bytes b, y, optBytesToValue m.ciphertext]), ⟨p', u', m.ciphertext⟩, ?_, ?_, g4, g5, rfl⟩
+  · simp only [toVec, h1]
+  · simp only [fromSlice, readToValue_enc _ hn hd, h2]
+
+/-- COSE_Sign built in memory, any number of signers (each signer's array may nest `j` levels). -/
+theorem sign_built_bytes (m : CoseSign) (k j : Nat) (hk : k + 2 ≤ recursionLimit) (hj : j + 2 ≤ recursionLimit)
+    (hp : ProtectedHeader.WF maxNest m.protected_) (hu : Header.WF maxNest m.unprotected) (hs : sigsWF maxNest m.signatures)
+    (hpn : ProtectedHeader.NF m.protected_) (hun : Header.NF k m.unprotected) (hsn : sigsNF j m.signatures)
+    (hsl : m.signatures.length < 2 ^ 64) (hpl : ∀ b, m.payload = some b → b.length < 2 ^ 64) :
+    ∃ bs m', toVec CoseSign.toValue m = .ok bs ∧ fromSlice CoseSign.fromValue bs = .ok m' ∧
+      ProtectedHeader.erase m'.protected_ = ProtectedHeader.erase m.protected_ ∧ Header.erase m'.unprotected = Header.erase m.unprotected ∧
+      m'.payload = m.payload ∧ eraseSigs m'.signatures = eraseSigs m.signatures := by
+  obtain ⟨b, y, p', u', hsl', g2, g3, g4, g5, _⟩ := slots_rt _ _ hp hu
+  obtain ⟨vs, ss', e1, e2, e3, _⟩ := signers_rt _ hs
+  obtain ⟨vs2, f1, f2, f3⟩ := sigs_emitN maxNest j (emitN_all maxNest).2 m.signatures hs hsn
+  rw [e1] at f1; simp at f1; subst f1
+  have h1 : m.toValue = .ok (.array [.bytes b, y, optBytesToValue m.payload, .array vs]) := by simp [CoseSign.toValue, hsl', e1]
+  have h2 : CoseSign.fromValue (.array [.bytes b, y, optBytesToValue m.payload, .array vs]) = .ok ⟨p', u', m.payload, ss'⟩ :=
+    (sign_ok_iff _ _).mpr ⟨.bytes b, y, _, vs, rfl, g2, g3, optBytes_emit _, e2⟩
+  obtain ⟨n1, d1, n2, d2⟩ := slots_emit_normal _ _ k hp hu hpn hun _ _ hsl'
+  obtain ⟨n3, d3⟩ := normal_optBytes m.payload hpl
+  have n4 : Normal (.array vs) := by simp only [Normal]; exact ⟨by rw [f2]; exact hsl, normalL_of vs (fun z hz => (f3 z hz).1)⟩
+  have d4 : depthOf (.array vs) ≤ j + 1 := by
+    rw [depthOf_array]; have := depthOfL_le j vs (fun z hz => (f3 z hz).2); omega
+  have hn : Normal (.array [.bytes b, y, optBytesToValue m.payload, .array vs]) := by
+    simp only [Normal, NormalL]; exact ⟨by simp, n1, n2, n3, n4, trivial⟩
+  have hd : depthOf (.array [.bytes b, y, optBytesToValue m.payload, .array vs]) ≤ recursionLimit := by
+    simp only [depthOf, depthOfL] at d1 d3 ⊢
+    rw [depthOf_array] at d4
+    omega
+  refine ⟨enc (.array [.bytes b, y, optBytesToValue m.payload, .array vs]), ⟨p', u', m.payload, ss'⟩, ?_, ?_, g4, g5, rfl, e3⟩
+  · simp only [toVec, h1]
+  · simp only [fromSlice, readToValue_enc _ hn hd, h2]
+
 /-! ### keys and claims sets -/
 
 /-- field-level normality of a COSE_Key (`k`: nesting budget for the values of the extra parameters). -/
@@ -357,6 +431,77 @@ theorem key_emit_normal (key : CoseKey) (k : Nat) (hw : key.WF) (hn : CoseKey.NF
 theorem key_built_bytes (key : CoseKey) (k : Nat) (hk : k + 1 ≤ recursionLimit) (hw : key.WF) (hn : CoseKey.NF k key) :
     ∃ bs, toVec CoseKey.toValue key = .ok bs ∧ fromSlice CoseKey.fromValue bs = .ok key := by
   obtain ⟨x, h1, h2, h3, h4⟩ := key_emit_normal key k hw hn
+  exact ⟨enc x, by simp only [toVec, h1], by simp only [fromSlice, readToValue_enc x h2 (by omega), h4]⟩
+
+
+/-- field-level normality of a CWT claims set. -/
+structure ClaimsSet.NF (k : Nat) (c : ClaimsSet) : Prop where
+  texts : (∀ t, c.issuer = some t → TextOK t) ∧ (∀ t, c.subject = some t → TextOK t) ∧ (∀ t, c.audience = some t → TextOK t)
+  cti : ∀ b, c.cwtId = some b → b.length < 2 ^ 64
+  rest : c.rest.length + 8 < 2 ^ 64 ∧ ∀ p ∈ c.rest, RegPrivN Reg.cwtClaimName p.1 ∧ Normal p.2 ∧ depthOf p.2 ≤ k
+
+theorem typed_claims_N : ∀ n ∈ typedClaims, RegPrivN Reg.cwtClaimName n := by
+  intro n hn
+  simp only [typedClaims, List.mem_cons, List.not_mem_nil, or_false] at hn
+  rcases hn with rfl | rfl | rfl | rfl | rfl | rfl | rfl <;> (simp only [RegPrivN, cISS, cSUB, cAUD, cEXP, cNBF, cIAT, cCTI]; decide +kernel)
+
+theorem normal_tsValue (t : Timestamp) (h : GoodTs t) : Normal (tsValue t) ∧ depthOf (tsValue t) = 0 := by
+  cases t with
+  | wholeSeconds n => exact ⟨normal_int_i64 n h, by simp [tsValue, depthOf]⟩
+  | fractionalSeconds f => exact ⟨by simp [tsValue, Normal], by simp [tsValue, depthOf]⟩
+
+theorem claims_emit_normal (c : ClaimsSet) (k : Nat) (hw : c.WF) (hn : ClaimsSet.NF k c) :
+    ∃ x, c.toValue = .ok x ∧ Normal x ∧ depthOf x ≤ k + 1 ∧ ClaimsSet.fromValue x = .ok c := by
+  obtain ⟨h1, h2⟩ := claims_rt c hw
+  have tn : ∀ n ∈ typedClaims, Normal (nameVal n) ∧ depthOf (nameVal n) = 0 := fun n hn' => normal_regPrivValue _ n (typed_claims_N n hn')
+  have hent : ∀ e ∈ claimL c.issuer c.subject c.audience c.expirationTime c.notBefore c.issuedAt c.cwtId ++ c.rest,
+      Normal (nameVal e.1) ∧ depthOf (nameVal e.1) ≤ k ∧ Normal e.2 ∧ depthOf e.2 ≤ k := by
+    intro e he
+    have txt : ∀ t, TextOK t → Normal (Value.text t) ∧ depthOf (Value.text t) ≤ k :=
+      fun t ht => ⟨by simp only [Normal]; exact ⟨ht.2, ht.1⟩, by simp [depthOf]⟩
+    rcases List.mem_append.mp he with he | he
+    · rcases claimL_mem _ _ _ _ _ _ _ e he with ⟨t, ht, rfl⟩ | ⟨t, ht, rfl⟩ | ⟨t, ht, rfl⟩ | ⟨t, ht, rfl⟩ | ⟨t, ht, rfl⟩ | ⟨t, ht, rfl⟩ | ⟨t, ht, rfl⟩
+      · have a := tn cISS (by simp [typedClaims]); have b := txt t (hn.texts.1 t ht)
+        exact ⟨a.1, by rw [a.2]; omega, b.1, b.2⟩
+      · have a := tn cSUB (by simp [typedClaims]); have b := txt t (hn.texts.2.1 t ht)
+        exact ⟨a.1, by rw [a.2]; omega, b.1, b.2⟩
+      · have a := tn cAUD (by simp [typedClaims]); have b := txt t (hn.texts.2.2 t ht)
+        exact ⟨a.1, by rw [a.2]; omega, b.1, b.2⟩
+      · have a := tn cEXP (by simp [typedClaims]); have b := normal_tsValue t (hw.times.exp t ht)
+        exact ⟨a.1, by rw [a.2]; omega, b.1, by rw [b.2]; omega⟩
+      · have a := tn cNBF (by simp [typedClaims]); have b := normal_tsValue t (hw.times.nbf t ht)
+        exact ⟨a.1, by rw [a.2]; omega, b.1, by rw [b.2]; omega⟩
+      · have a := tn cIAT (by simp [typedClaims]); have b := normal_tsValue t (hw.times.iat t ht)
+        exact ⟨a.1, by rw [a.2]; omega, b.1, by rw [b.2]; omega⟩
+      · have a := tn cCTI (by simp [typedClaims])
+        exact ⟨a.1, by rw [a.2]; omega, by simp only [Normal]; exact hn.cti t ht, by simp [depthOf]⟩
+    · have := hn.rest.2 e he
+      have a := normal_regPrivValue _ e.1 this.1
+      exact ⟨a.1, by rw [a.2]; omega, this.2.1, this.2.2⟩
+  refine ⟨_, h1, ?_, ?_, h2⟩
+  · simp only [Normal]
+    constructor
+    · have := claimL_length_le c.issuer c.subject c.audience c.expirationTime c.notBefore c.issuedAt c.cwtId
+      have := hn.rest.1
+      simp only [namePairs, List.length_map, List.length_append]; omega
+    · apply normalP_of
+      intro q hq
+      simp only [namePairs, List.mem_map] at hq
+      obtain ⟨e, he, rfl⟩ := hq
+      have := hent e he; exact ⟨this.1, this.2.2.1⟩
+  · rw [depthOf_map]
+    have : depthOfP (namePairs (claimL c.issuer c.subject c.audience c.expirationTime c.notBefore c.issuedAt c.cwtId ++ c.rest)) ≤ k := by
+      apply depthOfP_le
+      intro q hq
+      simp only [namePairs, List.mem_map] at hq
+      obtain ⟨e, he, rfl⟩ := hq
+      have := hent e he; exact ⟨this.2.1, this.2.2.2⟩
+    omega
+
+/-- CWT claims set built in memory: `from_slice (to_vec c) = c`. -/
+theorem claims_built_bytes (c : ClaimsSet) (k : Nat) (hk : k + 1 ≤ recursionLimit) (hw : c.WF) (hn : ClaimsSet.NF k c) :
+    ∃ bs, toVec ClaimsSet.toValue c = .ok bs ∧ fromSlice ClaimsSet.fromValue bs = .ok c := by
+  obtain ⟨x, h1, h2, h3, h4⟩ := claims_emit_normal c k hw hn
   exact ⟨enc x, by simp only [toVec, h1], by simp only [fromSlice, readToValue_enc x h2 (by omega), h4]⟩
 
 end Coset
